@@ -113,6 +113,23 @@ fn pos_of(text: &str, needle: &str, nth: usize) -> Option<(u32, u32)> {
     Some((line, col))
 }
 
+/// run replay/exec_oracle.js (node) on the original source and the rewritten code; returns its one-line verdict
+fn exec_oracle(mode: &str, original: &str, rewritten: &str, driver: &str) -> String {
+    let dir = std::env::temp_dir().join(format!("verif_exec_{}", std::process::id()));
+    let _ = std::fs::create_dir_all(&dir);
+    let of = dir.join("original.js");
+    let rf = dir.join("rewritten.js");
+    std::fs::write(&of, original).expect("write original");
+    std::fs::write(&rf, rewritten).expect("write rewritten");
+    let script = std::path::Path::new(env!("CARGO_MANIFEST_DIR")).join("exec_oracle.js");
+    let out = std::process::Command::new("node").arg(script).arg(mode).arg(&of).arg(&rf).arg(driver).output();
+    let _ = std::fs::remove_dir_all(&dir);
+    match out {
+        Ok(o) => String::from_utf8_lossy(&o.stdout).trim().to_string() + String::from_utf8_lossy(&o.stderr).lines().next().unwrap_or(""),
+        Err(e) => format!("ORACLE-UNAVAILABLE {e}"),
+    }
+}
+
 fn count_hooks(code: &str) -> usize {
     code.matches("_ddiast.").count()
 }
@@ -262,6 +279,18 @@ fn main() {
         let obj = cond.as_object().expect("condition object");
         for (k, v) in obj {
             let holds = match k.as_str() {
+                // the rewritten program, run with pass-through hooks, behaves differently from the input program on this call
+                "exec_differs" => {
+                    let verdict = exec_oracle("exec", &w.source, &code, v.as_str().unwrap());
+                    println!("--- exec oracle: {verdict}");
+                    !panicked && errored.is_none() && verdict.starts_with("EXEC-DIFFERS")
+                }
+                // some hook call received a first argument that is not the operation applied to its other arguments
+                "hook_args_wrong" => {
+                    let verdict = exec_oracle("hooks", &w.source, &code, v.as_str().unwrap());
+                    println!("--- exec oracle: {verdict}");
+                    !panicked && errored.is_none() && verdict.starts_with("HOOK-ARGS-WRONG")
+                }
                 "panics" => panicked == v.as_bool().unwrap(),
                 "errors" => errored.is_some() == v.as_bool().unwrap(),
                 "hooks_ne_metric" => (hooks != metric) == v.as_bool().unwrap(),
